@@ -184,7 +184,7 @@ def _jsonable(x):
 
 
 def explore(fn, *, budget_s=60.0, per_path_s=30.0, shard=(0, 1), shard_of=None,
-            max_cex=3, twin=False, seed=0, profile_first=12, max_samples=6, max_paths=None):
+            max_cex=3, twin=False, seed=0, profile_first=12, max_samples=6, max_paths=None, native_body=False):
     """Explore every feasible path of `fn` over symbolic arguments.
 
     Verdict per path: CONFIRMED (returned truthy/None), REFUTED (returned False or
@@ -263,7 +263,10 @@ def explore(fn, *, budget_s=60.0, per_path_s=30.0, shard=(0, 1), shard_of=None,
                 break
             if rep is not None:
                 prof = profiled < profile_first
-                nat, nmsg = run_native(fn, rep, profile=prof)
+                if native_body and status == VerificationStatus.CONFIRMED and not prof:
+                    nat, nmsg = True, ''      # the body already ran with the tracer off on these concrete values
+                else:
+                    nat, nmsg = run_native(fn, rep, profile=prof)
                 if prof:
                     profiled += 1
                 key = repr(sorted(rep.items()))
